@@ -90,8 +90,11 @@ def check_operand_protocol(model, col, rule):
                 col.bad(rule, f"{key}.{where} touches {m_}", f"{where} refers to `{m_}`, which is not an operand field this class stores (name mangling makes `self.__x` private to the class that writes it): AttributeError", IR, ci.node)
     col.floor(rule, "instruction classes", ncls, 14)
     helper = model.cls(IR, "Instruction").own_method("_ReplaceUsesInList")
-    t = unparse(helper)
-    col.check("valueList[i].Reference == ref" in t and "valueList[i] = newValue" in t, rule, f"{IR}::Instruction._ReplaceUsesInList", "replaces every entry whose reference matches", None, IR, helper)
+    from ..sem import alpha as _alpha
+
+    t = _alpha(helper)
+    # parameters: p0 = the operand list, p1 = the reference to replace, p2 = the new value; v0 = the index / element variable
+    col.check(("for v0 in range(len(p0)): if p0[v0].Reference == p1: p0[v0] = p2" in t) or ("for v0, v1 in enumerate(p0): if v1.Reference == p1: p0[v0] = p2" in t), rule, f"{IR}::Instruction._ReplaceUsesInList", "replaces every entry whose reference matches", None, IR, helper)
 
 
 def _is_position(cls, func, X, arg, evs, atoms, depth=1):
@@ -288,8 +291,17 @@ def run(model, col, tier):
     col.check(isinstance(fr_last, ast.Expr) and isinstance(fr_last.value, ast.Call) and last_attr(fr_last.value) == "UpdateUses", "R02.3", f"{IR}::Function.ReplaceUses refreshes the use table",
               "ends with self.UpdateUses()", "after a batch of rewrites the use table is not recomputed: the next batch rewires the users of the old operands", IR, fr)
     if rp:
-        s = unparse(rp[1])
-        col.check("newInstruction.SetReference(instruction.Reference)" in s and "isinstance(newInstruction, Instruction)" in s, "R02.3", f"{IR}::BasicBlock.__Replace",
+        # on the path where a replacing instruction is put in, it first takes over the reference of the one it replaces
+        takes = False
+        for lp_ in [n for n in ast.walk(rp[1]) if isinstance(n, ast.For)]:
+            tg_ = unparse(lp_.target)
+            for evs, status in paths(lp_.body, loop_iters=(1,)):
+                atoms = cond_atoms(evs)
+                isinstr = next((k for k, v in atoms.items() if k.startswith("isinstance(") and k.endswith(", Instruction)") and v is True), None)
+                if isinstr:
+                    newn = isinstr[len("isinstance("):isinstr.rindex(",")].strip()
+                    takes = takes or any(last_attr(c) == "SetReference" and unparse(c.func.value) == newn and c.args and unparse(c.args[0]) == f"{tg_}.Reference" for c in calls_on_path(evs))
+        col.check(takes, "R02.3", f"{IR}::BasicBlock.__Replace",
                   "a replacing instruction takes over the reference; a non-instruction replacement (None/constant) removes the slot", None, IR, rp[1])
     # Function.ReplaceUses: for EVERY (ref -> new) pair EVERY recorded user of ref is rewired: the nested iteration reaches the
     # per-instruction ReplaceUses(ref, new) on all paths of its body (no filter, no early exit)
@@ -341,13 +353,19 @@ def run(model, col, tier):
     comp = pipe.compile
     skip = [n for n in ast.walk(comp) if isinstance(n, ast.If) and any(isinstance(s, ast.Continue) for s in n.body)]
     good = False
+    tt = None
+    optp = comp.args.args[2].arg if len(comp.args.args) > 2 else "options"
+    switch_forms = (f"{optp}.get('optimize', False)", f"{optp}.get('optimize')", f"bool({optp}.get('optimize', False))", f"{optp}.get('optimize', False) is True")
     if skip:
-        tt = " ".join(unparse(skip[0].test).split())
-        good = tt == "not optimizations and p.Flags & PassFlags.IsOptimization"
-    col.check(good, "R02.4", f"{COMPILER}::Compile skips exactly the optimisation passes when optimisation is off", "if not optimizations and p.Flags & IsOptimization: continue",
-              f"skip condition is `{unparse(skip[0].test) if skip else None}`", COMPILER, comp)
-    opt = find_assign(comp, "optimizations")
-    col.check(bool(opt) and unparse(opt[0]) == "options.get('optimize', False)", "R02.4", f"{COMPILER}::Compile optimisation switch", "options.get('optimize', False)", f"{[unparse(o) for o in opt]}", COMPILER, comp)
+        from ..sem import local_env as _le_c, rtext as _rt_c
+
+        c_env = _le_c(comp, allow_impure=True)
+        tt = _rt_c(skip[0].test, c_env)
+        lp_ = next((n for n in ast.walk(comp) if isinstance(n, ast.For) and any(x is skip[0] for x in ast.walk(n))), None)
+        names_ = [x.id for x in ast.walk(lp_.target) if isinstance(x, ast.Name)] if lp_ is not None else []
+        good = lp_ is not None and "irPasses" in unparse(lp_.iter) and any(tt == f"not {sw} and {nm}.Flags & PassFlags.IsOptimization" for sw in switch_forms for nm in names_)
+    col.check(good, "R02.4", f"{COMPILER}::Compile skips exactly the optimisation passes when optimisation is off", "if not <options.get('optimize', False)> and <pass>.Flags & IsOptimization: continue",
+              f"skip condition is `{tt}`", COMPILER, comp)
     mp = model.func("nsl/Pass.py", "MakePassFromVisitor")
     flagsprop = [n for n in ast.walk(mp) if isinstance(n, ast.FunctionDef) and n.name == "Flags"]
     col.check(bool(flagsprop) and "return self.__flags" in unparse(flagsprop[0]) and "self.__flags = flags" in unparse(mp), "R02.4", "nsl/Pass.py::MakePassFromVisitor Flags", "the pass reports the flags it was built with", None, "nsl/Pass.py", mp)
